@@ -33,6 +33,7 @@ def sites(an, body, obj, path=()):
             if case is not None:
                 if case["body"]:
                     out.append(("case_none", p, None))
+                    out.append(("case_impostor", p, spec.case_class_name(sw, case)))
                     sib = [c for c in nonempty if c is not case]
                     if sib:
                         out.append(("case_sibling", p, (sw, sib)))
@@ -143,6 +144,9 @@ def apply(an, body, obj, pick, valuegen_body):
         n = info + pick([1, 2])
         cur = cur + [cur[0]] * (n - len(cur))
         _set(o, path, cur)
+    elif kind == "case_impostor":
+        # an object of an unrelated class that merely has the expected class' NAME
+        _set(o, path, {"__impostor__": info})
     elif kind in ("case_sibling", "case_for_empty"):
         sw, cands = info
         c = pick(cands)
